@@ -62,8 +62,7 @@ def check_orth(ctx, Y, F, Z, p, k, stab, tF, nrmY):
     ctx.check(why is None, f"orthogonalize(k={k}, stab={stab}): result not well-formed: {why}")
     ctx.check(isinstance(p, int) and not isinstance(p, bool), "orthogonalize: exponent p is not a Python int", p=repr(p), k=k)
     rin, rout = oracle.ranks_of(Y), oracle.ranks_of(Z)
-    sc = 2.0 ** p
-    D = dense(Z) * sc
+    D = np.ldexp(dense(Z), p)          # 2**p may be far outside the float range when the base tensor is (numerically) zero
     ctx.check(fro(D - F) <= tF, "orthogonalize: denoted tensor changed", k=k, stab=stab, err=fro(D - F), tol=tF)
     for j in range(k):
         G = Z[j]
@@ -73,8 +72,8 @@ def check_orth(ctx, Y, F, Z, p, k, stab, tF, nrmY):
         G = Z[j]
         ctx.check(oracle.ortho_defect_right(G) <= 64 * EPS * max(G.shape[0], G.shape[1] * G.shape[2]),
                   "orthogonalize: core right of the pivot does not have orthonormal rows", core=j, k=k, defect=oracle.ortho_defect_right(G))
-    ctx.check(abs(fro(Z[k]) * sc - nrmY) <= tF, "orthogonalize: pivot core does not carry the Frobenius norm",
-              pivot=fro(Z[k]) * sc, norm=nrmY, tol=tF, k=k)
+    piv = float(np.ldexp(fro(Z[k]), p))
+    ctx.check(abs(piv - nrmY) <= tF, "orthogonalize: pivot core does not carry the Frobenius norm", pivot=piv, norm=nrmY, tol=tF, k=k)
     for j in range(1, d):
         ctx.check(rout[j] <= rin[j], "orthogonalize: a rank increased", bond=j, rin=rin, rout=rout, k=k)
         if j <= k:
@@ -117,7 +116,7 @@ def prop_orth(case, ctx):
             if nrmY > 0:
                 ctx.check(abs(p - sum(sh) - math.log2(nrmY)) < 64, "orthogonalize(use_stab): exponent inconsistent with the scale of the input",
                           p=p, shift_sum=sum(sh), log2_norm_base=math.log2(nrmY), k=k)
-            check_orth(ctx, Y, F, Z, (p - sum(sh)) if nrmY > 0 else 0, k, True, tF, nrmY)
+            check_orth(ctx, Y, F, Z, p - sum(sh), k, True, tF, nrmY)
             ctx.inner(1, nontrivial_key=f"x{k}")
         ctx.nontrivial(True)
         return
